@@ -69,6 +69,7 @@ def run(check: Check, repo: Repo, tier: str) -> None:
     from rules import coercion_rules as K
 
     K.sibling_atoms(check, repo)
+    K.sibling_details(check, repo)  # which value means "absent" (Undefined, never None) decides what a resolver receives for an explicit null
     G.param_readonly(check, list(repo.mod("error.located_error").functions()))
     S.nonnull_invariant(check, repo.package_modules("execution"))
     X.scope_threading(check, repo, [repo.mod(x) for x in ("execution.executor", "execution.execute", "execution.values", "execution.collect_fields",
